@@ -320,7 +320,10 @@ def one(cmds, sched, gran, cuts, acc):
     r = run_sequence(cmds, sched, gran, cuts)
     key = (cmds, sched, gran, cuts)
     nontrivial = len(cmds) >= 2 or cuts
-    oc = tuple(sorted(set(v[0] for v in r['viol']))) or ('ok',)
+    oc = tuple(sorted(set(v[0] for v in r['viol'])))
+    if not oc:
+        # observation class: how each command ended, and how many callback lines it saw
+        oc = tuple('%s:%s%d' % (k, o[0][0], len(o[1])) for (k, _), o in zip(cmds, r['obs'][1]))
     acc.execution(key=key, outcome='/'.join(oc), nontrivial=bool(nontrivial), steps=r['steps'] + len(cmds))
     acc.state(h64(r['obs']))
     if acc.want_recheck(0.005):
